@@ -47,6 +47,10 @@ P = {
          "(one level, all contents); nested sources are covered by kernel-evaluated examples and by the tie only (theorem labelled partial). Tie: library and CLI compaction for 8 limits incl. 1, 2, 7 bytes vs the "
          "extracted model run on the decoded source image; destination Tx.Check; source SHA-256 before/after.",
          "The nested induction (paths) is not mechanised yet: C15 is partial on the theorem side.", "DESIGN.md §8 C15"),
+ "C18": ("Grow.v: mmapSize covers the request; if the pre-check of the last allocation passed and the map is not larger than that allocation needs, the file after grow (with or without grow-sync) is within "
+         "max(MaxSize, previous length); the unrestricted statement is REFUTED by a kernel-checked witness (known finding D7). Tie: every ErrMaxSizeReached and every file length after commit predicted by the "
+         "extracted model from the real allocation events; Spec.v for the refused transaction; decoder accounting.",
+         "Known finding D7 (map inflated by InitialMmapSize). Windows-specific branches are not modelled.", "DESIGN.md §8 C18"),
  "C12": ("Round-trip theorems between the published layout as a writer specification (LayoutEnc.v) and the independent reader (Layout.v) for integers and checksummed meta pages at any file position; "
          "every file the implementation writes in generated histories is decoded by the extracted reader and compared with the API's report.",
          "Leaf/branch/freelist page round trips are exercised by the correspondence only (theorems so far: integers, meta).", "DESIGN.md §8 C12"),
